@@ -184,6 +184,7 @@ def run_gix(ctx, binary, repo, wq, chunk=400):
             if "got" not in r:
                 raise ToolError("executor failed outside of merge_base: %s" % json.dumps(r)[:300])
             flat.extend(r["got"]["groups"])
+        ctx.cov["evaluations"] += sum(len(g) for g in flat) - len(cases)     # one evaluation per merge_base call
         res[mode] = flat
     return res
 
@@ -246,7 +247,7 @@ def audit_many(ctx, repo, items, threads=4, via_revparse=True):
         for i, (v, w, q) in enumerate(items):
             if v != variant:
                 continue
-            if via_revparse and len(q["others"]) == 1 and i % (100 if ctx.thorough else 50):
+            if via_revparse and len(q["others"]) == 1 and i % (200 if ctx.thorough else 50):
                 rp.append(i)
             else:
                 mb.append(i)
@@ -321,9 +322,9 @@ def part_pick(w, n):
 
 def gen_runs(ctx):
     if ctx.thorough:
-        # all shapes up to 5 commits incl. octopus merges under four time patterns; the 6-commit shapes with two-parent
+        # all shapes up to 5 commits incl. octopus merges under three time patterns; the 6-commit shapes with two-parent
         # merges under reversed times, two-tip queries
-        return [{"MinN": 1, "MaxN": 5, "MaxPar": 3, "MaxOthers": 2, "Pats": '{"inc", "eq", "dec", "zig"}'},
+        return [{"MinN": 1, "MaxN": 5, "MaxPar": 3, "MaxOthers": 2, "Pats": '{"inc", "eq", "dec"}'},
                 {"MinN": 6, "MaxN": 6, "MaxPar": 2, "MaxOthers": 1, "Pats": '{"dec"}'}]
     return [{"MinN": 1, "MaxN": 5, "MaxPar": 2, "MaxOthers": 2, "Pats": '{"inc", "eq", "dec"}'}]
 
@@ -385,7 +386,7 @@ def run(ctx):
     ctx.sample({"world": {"par": mid["par"], "time": mid["time"]}, "query": mid["queries"][-1]})
 
     # binding C: git on the generated queries: every two-tip query, and a stride of the queries with several others
-    budget = 600 if not ctx.thorough else 8000
+    budget = 600 if not ctx.thorough else 4000
     two, many = [], []
     for w, qs in wq:
         for q in qs:
@@ -447,7 +448,7 @@ def random_world(rng, n):
 
 
 def random_part(ctx, binary):
-    nw = 120 if not ctx.thorough else 2500
+    nw = 120 if not ctx.thorough else 1000
     worlds, wq = [], []
     for w in range(nw):
         n = ctx.rng.randint(6, 26)
